@@ -5,3 +5,7 @@ import "testing"
 func TestC13_Set(t *testing.T) {
 	checkRapid(t, "C13", "TestC13_Set", ruleC13, drawC13)
 }
+
+func TestC13_SharedAccessors(t *testing.T) {
+	checkRapid(t, "C13", "TestC13_SharedAccessors", ruleC13Shared, drawC13Shared)
+}
